@@ -69,3 +69,18 @@ Theorem C03_one_decl_per_declarator : forall (P: Type) ds spec it tns (s: pstate
   Forall2 (fun d r => exists sp sp' sa sb, build_one P sp it tns d sa = Ok ((r, sp'), sb)) ds decls.
 Proof. exact build_loop_one_per_declarator. Qed.
 Print Assumptions C03_one_decl_per_declarator.
+
+(* COMPLETENESS for the simplest declarations, on the whole-parser model (proofs/DeclTrip.v): for every non-empty run T of simple
+   type-specifier keywords, every identifier x and every initializer the assignment-expression level parses back (InitOK: none, or
+   `= e`), p_declaration turns the tokens `T x [= e] ;` - from any state whose scope stack holds no typedef name - into exactly ONE Decl
+   named x whose type is TypeDecl(x) over ONE IdentifierType listing the keywords of T in source order (the base type exactly as
+   spelled), with the initializer in its slot, no qualifiers / storage / function specifiers / alignment / bit-field width. *)
+From PV Require StreamLib RoundTrip DeclTrip.
+Theorem C03_plain_declaration : forall (P: Type) ty x ki Xi, ty <> [] ->
+  Forall (fun kv => ParserBase.kind_in (fst kv) ParserTables.tbl_TYPE_SPEC_SIMPLE = true) ty -> DeclTrip.InitOK P ki Xi ->
+  forall (s: ParserBase.pstate P) le (stop: ParserBase.tok P) l0, RoundTrip.Spell P le (DeclTrip.dtoks ty x ki) -> StreamLib.Up P s (le ++ stop :: l0) ->
+  StreamLib.NoTD (ParserBase.scopes P s) ->
+  exists f0 Ns s', (forall f, (f0 <= f)%nat -> ParserMain.p_declaration P f s = ParserBase.Ok (Ns, s')) /\ StreamLib.Up P s' (stop :: l0) /\
+    map (@RoundTrip.strip (ParserBase.coord P)) Ns = [DeclTrip.dembed ty x Xi] /\ StreamLib.Ran P s s' (length le).
+Proof. exact DeclTrip.decl_run. Qed.
+Print Assumptions C03_plain_declaration.
